@@ -438,6 +438,38 @@ def oracle_c17(tr, fail, stats):
                              "a moving unit in the written state does not carry the sample time")
                 if st != leg["post"]:
                     fail("C17:written-state-is-not-the-committed-state", {**base, "leg": i}, "state handed to the output handler differs from the global state after the commit")
+                # "the configuration at exactly that time": the global state as it was before this commit, every moving unit advanced
+                # along its own velocity to the sample time, everything at rest untouched (a state that was extracted and time-sliced
+                # earlier than the last interaction event carries the right time stamps but is not that configuration)
+                prev = tr["legs"][i - 1].get("post") if i > 0 else None
+                Ls = [float(x) for x in meta.get("system_lengths") or []]
+                if prev and Ls and t is not None:
+                    for ident, (pos, vel, ts, _) in st.items():
+                        if ident not in prev:
+                            continue
+                        pos0, vel0, ts0, _ = prev[ident]
+                        if vel0 is None:
+                            if vel is not None or pos != pos0:
+                                fail("C17:sampled-state-is-not-the-configuration-at-the-sample-time", {**base, "leg": i, "unit": ident, "before": pos0, "written": pos},
+                                     "a unit at rest before the sampling event has another position / a velocity in the written state")
+                                break
+                            continue
+                        if vel != vel0 or ts0 is None:
+                            fail("C17:sampled-state-is-not-the-configuration-at-the-sample-time", {**base, "leg": i, "unit": ident, "velocity_before": vel0, "written": vel},
+                                 "the velocity of a moving unit differs in the written state")
+                            break
+                        dt = float(tval(t) - tval(ts0))
+                        bad = False
+                        for d_ in range(min(len(pos), len(Ls))):
+                            L_ = Ls[d_]
+                            diff = abs(pos[d_] - (pos0[d_] + vel0[d_] * dt) % L_)
+                            if min(diff, abs(L_ - diff)) > 1e-9 * max(1.0, L_):
+                                bad = True
+                        if bad:
+                            fail("C17:sampled-state-is-not-the-configuration-at-the-sample-time",
+                                 {**base, "leg": i, "unit": ident, "before": [pos0, vel0, ts0], "written": [pos, vel, ts], "t": t},
+                                 "a moving unit is not at its previous position advanced by its velocity to the sample time")
+                            break
             stats["c17_samples"] = stats.get("c17_samples", 0) + 1
     if t_end is not None:
         for i, t in enumerate(ets):
